@@ -77,3 +77,48 @@ Theorem C02_session_abort_restores :
 Proof. exact session_abort_restores. Qed.
 
 Print Assumptions C02_session_abort_restores.
+
+(* ---- a test that CHANGES the testcase file while it runs (Model/Scribble.v: `scr k file` = what test k leaves at
+   the path; run_s = run with such a test).  Lithium never reads the file back, so the run is the same run; what it
+   keeps, logs and restores is the candidate it wrote, never what the test left behind ---- *)
+From Lithium Require Import Scribble ScribbleProofs.
+
+(* 1. Lithium never reads the testcase file back: whatever the test leaves there, the run - answers,
+   trace (every file handed to a test, every write, every temp copy), counters, temp dir, status -
+   is the run against the same test leaving the file alone; only the bytes at the path may differ *)
+Theorem scribble_invisible :
+  forall S (strat : strategy S) verdict scr fuel tc0 file0,
+    same_result_but_file (run_s strat verdict scr fuel tc0 file0) (run strat verdict fuel tc0 file0).
+Proof. exact run_s_same_but_file. Qed.
+
+(* 2. and once Lithium has written a candidate, the bytes at the path at the end of the run are the
+   same too (the final dump / the restoring dump overwrite what the test left) *)
+Theorem scribble_final_file :
+  forall S (strat : strategy S) verdict scr fuel tc0 file0,
+    match run_s strat verdict scr fuel tc0 file0, run strat verdict fuel tc0 file0 with
+    | Finished _ w1, Finished _ w2 => w_dirty w2 = true \/ scr 1 file0 = None \/ tc_len tc0 = 0 -> w_file w1 = w_file w2
+    | Aborted _ w1, Aborted _ w2 => w_dirty w2 = true \/ scr 1 file0 = None -> w_file w1 = w_file w2
+    | _, _ => True
+    end.
+Proof. exact run_s_final_file. Qed.
+
+(* C02 for such tests: after an abort the file is restored as soon as one candidate had been written *)
+Theorem C02_abort_restores_test_changes_file :
+  forall S (strat : strategy S) verdict scr fuel tc0 file0 e w,
+    content tc0 = file0 ->
+    run_s strat verdict scr fuel tc0 file0 = Aborted e w ->
+    1 < n_tests (chron w) ->
+    w_file w = last_accepted (chron w) file0 /\ hooks_ok (chron w).
+Proof. exact run_s_abort_restores. Qed.
+
+Theorem C02_kill_tempdir_test_changes_file :
+  forall S (strat : strategy S) verdict scr fuel tc0 file0 pre k p f a post,
+    content tc0 = file0 ->
+    chron (result_world (run_s strat verdict scr fuel tc0 file0)) = pre ++ ETest k p f a :: post ->
+    best_tagged (copies pre) None = Some (last_accepted pre file0).
+Proof. exact run_s_kill_tempdir. Qed.
+
+Print Assumptions scribble_invisible.
+Print Assumptions scribble_final_file.
+Print Assumptions C02_abort_restores_test_changes_file.
+Print Assumptions C02_kill_tempdir_test_changes_file.
